@@ -11,6 +11,10 @@ CHECKS = {
    technique="TLA+ model of Do (TLC exhaustive at bounded scripts) + deterministic gate-by-gate replay of TLC-generated and enumerated schedules on the real client, each recorded step validated by TLC (trace validation)",
    text="TLC checks PacketBoundary / NoStaleOutput / CleanSuccess on every interleaving of sender, receiver and cancel-watch for the bounded script universe; the real client is then driven through model-generated schedules, exceptions before/after every client step, write breaks and server cuts at every byte offset, failing callbacks, and every recorded step must be a step of the specification with the observed wire tokens, closed flag and next-request bytes.",
    note="Trusted: TLC; the gate scheduler (verif hooks are the only interleaving points observed); the in-memory connection as a stand-in for TCP; ch-go's own decoders used to tokenise client output."),
+ "C01": dict(engine="Wire", category="model_checking", design_ref="DESIGN.md §5 C01",
+   technique="TLA+ functional specification of the native column/block format used as the independent reference decoder: TLC decodes the bytes the real encoders produced and compares with the logical contents and with what the real decoders returned (trace validation); design lemma (decoder inverts an independently written encoder, prefix-freeness) model-checked on a type universe to depth 3",
+   text="~170 (quick) / ~460 (thorough) column types - 29 base kinds under Array / Nullable / LowCardinality / Map / Tuple to depth 2 / 3 - with random and boundary values, 5-6 protocol revisions around the block-affecting features, default and purego builds, every encoding path (EncodeBlock into empty and pre-filled buffers, WriteBlock+Flush, encoding the same objects twice), typed decode into fresh and reused targets and inferred decode; boundary blocks (strings of 127..16385 bytes, dictionaries of 254..257 and 65534..65537 values). Every block is one trace line validated by TLC against Wire.tla.",
+   note="Trusted: TLC; the harness' Go-value <-> raw-bytes conversion (encoding/binary); scalar values are opaque byte strings for the specification (their meaning is C20's subject); compositions the Go generics cannot express (Array(Tuple), LowCardinality(Nullable)) are not built."),
  "C03": dict(engine="QueryLifecycle", category="model_checking", design_ref="DESIGN.md §5 C03",
    technique="TLA+ model of Do's receive loop (TLC exhaustive over bounded scripts) + scripted server streams replayed on the real client, callbacks and returned exception chain validated step by step by TLC (trace validation)",
    text="TLC checks Delivered (callback log = exactly the callbacks the consumed packets call for, in order), NilOnlyAfterEos and ExcReturned on the model; random well-formed scripts up to length 12 (quick) / 30 (thorough), every callback present or absent, a failing callback at every position, all compression modes and several revisions run on the real client; each receiver step's callbacks (with the script item whose rows the bound columns hold), the error class, the recovered exception chain and errors.Is for every code are validated against the specification.",
@@ -19,6 +23,10 @@ CHECKS = {
    technique="TLA+ model of the compressed-frame reader over abstract streams with classified alterations (TLC exhaustive) + concrete streams (every payload length, method, builder; every single-byte alteration and every cut offset; forged size fields) read back through compress.Reader / proto.Reader, every Read validated by TLC (trace validation)",
    text="TLC checks OnlyVerified, Ordered and RoundTrip over all streams of up to 3 frames with any alteration class and all read-size sequences; on the real reader every payload length up to 600 (quick) / 4096 (thorough) plus MiB payloads, all methods and LZ4HC levels, frames built by compress.Writer and by an independent builder, every single-byte alteration at every offset (2-4 masks), every cut position and forged size fields are read with many read sizes, continuing after errors; each Read's byte count, origin of the bytes and error class (CorruptedDataErr with both checksums when the lengths are intact) is validated, as is the header of every frame compress.Writer produces.",
    note="Trusted: TLC; go-faster/city, pierrec/lz4, klauspost/compress called directly by the harness (not specified in TLA+); the harness' search for where returned bytes occur in the known payloads."),
+ "C07": dict(engine="Wire", category="fault_enumeration", design_ref="DESIGN.md §5 C07",
+   technique="prefix-freeness lemma of the TLA+ wire specification (TLC) + every proper prefix of every encoded block decoded by the library (typed, inferred, inside a compressed frame); accepted cuts are judged by the specification (trace validation)",
+   text="For every block of C01's universe (depth 2 quick / 3 thorough, default and purego builds) every cut position 0..len-1 is decoded three ways (~3*10^5 prefix decodes quick); TLC requires every cut the library accepted to be one the format itself cannot distinguish, and evaluates the specification's own verdict at random cuts.",
+   note="Trusted: TLC; blocks above 20000 bytes are skipped, frames above 600 bytes are cut at 600 positions; protocol-message prefixes are covered by C17's check once registered."),
  "C09": dict(engine="QueryLifecycle", category="model_checking", design_ref="DESIGN.md §5 C09",
    technique="TLA+ model of Do's send loop with input-contents versions (TLC exhaustive) + every bounded OnInput history executed on the real client with snapshots taken inside the callback, wire blocks matched to snapshots and validated by TLC (trace validation)",
    text="Every OnInput history up to 2 (quick) / 3 (thorough) nil-returning calls followed by a terminal call, over keep/append/reset/reset+append/overwrite-in-place and nil/io.EOF/wrapped io.EOF/error, initial rows zero or not, with a zero-copy and a copying column, across compression modes; TLC validates that block k on the wire holds the contents of round k, exactly one terminator follows, leftover rows are sent, errors stop the stream.",
@@ -31,6 +39,10 @@ CHECKS = {
    technique="TLA+ model of chpool over an abstract puddle (TLC exhaustive at 2-3 users) + operation histories (exhaustive to a bound, TLC-generated, random, with real short lifetimes) replayed on a real pool over in-memory connections, every recorded operation validated by TLC, which infers puddle's unobservable asynchronous steps (trace validation)",
    text="TLC checks OneHolder, MaxConns, NoDeadIdle, NoPanic, HeldIsAcquired, PermitsSane, AllClosedAfterClose and ReleaseIdempotent; on the real pool every operation sequence of length 3 (quick) / 4 (thorough) for two users over one connection, TLC-simulated behaviours and random histories with time passing are replayed; which connection a handle got and which served its request, errors, panics (also in foreign goroutines: the process dying is isolated per history), puddle's Stat(), closed connections, ages and idle times are validated.",
    note="Trusted: TLC; the scripted per-connection servers; ages measured by the harness before and after each operation (a decision inside a 15 ms band around the limits is accepted either way); interleaving is at operation granularity (concurrent use: C12)."),
+ "C15": dict(engine="Wire", category="translation_validation", design_ref="DESIGN.md §5 C15",
+   technique="both builds bound to the same deterministic TLA+ specification (Wire.tla) by trace validation on identical seeded inputs, plus a line-by-line diff of the two transcripts",
+   text="The 35 dual-variant codecs x blocks encoded by every path and decoded into fresh and used-then-reset targets, DecodeColumn on arbitrary bytes - every byte value for 8-bit kinds, every 16-bit value for 16-bit kinds - in a `-tags verif` and a `-tags verif,purego` binary; each trace validated by TLC, then the traces compared.",
+   note="Trusted: TLC; error texts are not compared, only presence of an error; decoding into a non-empty column is out of scope as the property states."),
  "C14": dict(engine="Writer", category="model_checking", design_ref="DESIGN.md §5 C14",
    technique="TLA+ model of the vectored writer with explicit backing arrays (TLC exhaustive) + every bounded operation sequence executed on the real proto.Writer and validated by TLC (trace validation)",
    text="Exhaustive at the stated sequence length over a 12-operation alphabet, plus random long sequences; each Flush's delivered bytes are compared by TLC with the specification's pending contents.",
@@ -70,6 +82,8 @@ def main():
         "engines": [
             {"name": "QueryLifecycle", "path": "spec/QueryLifecycle.tla", "serves_properties": ["C03", "C04", "C09", "C10", "C12"],
              "kind_free_text": "TLA+ state machine of Client.Do (three goroutines, errgroup, writer, connection, faults, cancellation, next request); MC_QL*.cfg model checking, Gen_QL*.cfg behaviour generation, Trace_QL trace validation"},
+            {"name": "Wire", "path": "spec/Wire.tla", "serves_properties": ["C01", "C07", "C15", "C16", "C14"],
+             "kind_free_text": "TLA+ functional specification of the native format (varints, strings, LE integers, column layouts for a type AST, state prefixes, LowCardinality, block header); MC_Wire design lemma, Trace_Wire trace validation"},
             {"name": "Frames", "path": "spec/Frames.tla", "serves_properties": ["C05"],
              "kind_free_text": "TLA+ model of compress.Reader over abstract frame streams with alteration classes; MC_Frames*.cfg, Trace_Frames"},
             {"name": "Pool", "path": "spec/Pool.tla", "serves_properties": ["C11", "C12"],
